@@ -184,6 +184,9 @@ static std::string dumpAnamH(const AnamHermite* a) {
 static std::string dumpNeighU(const NeighUnique* n) { return "(" + std::to_string((int) n->getNDim()) + ")"; }
 static std::string dumpNeighB(const NeighBench* n) { return "(" + std::to_string((int) n->getNDim()) + " " + sx_d(n->getWidth()) + ")"; }
 static std::string dumpNeighC(const NeighCell* n) { return "(" + std::to_string((int) n->getNDim()) + " " + std::to_string(n->getNMini()) + ")"; }
+static std::string dumpNeighI(const NeighImage* n) {
+  return "(" + std::to_string((int) n->getNDim()) + " " + std::to_string(n->getSkip()) + " " + std::to_string((int) n->_imageRadius.size()) + ")";
+}
 static std::string dumpNeighM(const NeighMoving* n) {
   return "(" + std::to_string((int) n->getNDim()) + " " + std::to_string(n->getNMini()) + " " + std::to_string(n->getNMaxi()) + ")";
 }
@@ -195,6 +198,37 @@ static std::string dumpVario(const Vario* v) {
   o << ") (";
   for (int i = 0; i < nd; i++) o << (i ? " " : "") << (i < (int) v->_sw.size() ? (long long) v->_sw[i].size() : -1LL);
   o << "))";
+  return o.str();
+}
+static std::string dumpAnamD(const AnamDiscrete* a) {
+  std::ostringstream o;
+  o << a->getNCut() << " " << a->getNElem() << " " << sx_vd(a->getZCut()) << " " << sx_vd(a->getStats().getValues());
+  return o.str();
+}
+static std::string dumpAnamDD(const AnamDiscreteDD* a) { return "(" + dumpAnamD(a) + " " + sx_d(a->getSCoef()) + " " + sx_d(a->getMu()) + ")"; }
+static std::string dumpAnamIR(const AnamDiscreteIR* a) { return "(" + dumpAnamD(a) + " " + sx_d(a->getRCoef()) + ")"; }
+static std::string dumpAnamE(const AnamEmpirical* a) {
+  std::ostringstream o;
+  o << "(" << a->getNDisc() << " " << sx_d(a->getSigma2e()) << " " << sx_vd(a->getZDisc()) << " " << sx_vd(a->getYDisc()) << ")";
+  return o.str();
+}
+static std::string dumpDbLine(const DbLine* d) {
+  std::ostringstream o;
+  o << "((";
+  for (size_t i = 0; i < d->_lineAdds.size(); i++) {
+    o << (i ? " " : "") << "(";
+    for (size_t j = 0; j < d->_lineAdds[i].size(); j++) o << (j ? " " : "") << d->_lineAdds[i][j];
+    o << ")";
+  }
+  o << ") " << dumpDb(d) << ")";
+  return o.str();
+}
+static std::string dumpTurbo(const MeshETurbo* t) {
+  std::ostringstream o;
+  o << "(" << t->getNDim() << " (";
+  for (int i = 0; i < (int) t->getNDim(); i++) o << (i ? " " : "") << t->_grid.getNX(i);
+  o << ") " << (t->_meshIndirect.isDefined() ? t->_meshIndirect.getRelSize() : -1)
+    << " " << (t->_gridIndirect.isDefined() ? t->_gridIndirect.getRelSize() : -1) << ")";
   return o.str();
 }
 static std::string dumpModel(const Model* m) {
@@ -313,15 +347,15 @@ static Outcome loadAny(int cls, const std::string& path) {
     case C_NEIGHBENCH: return loadNF<NeighBench>(path, dumpNeighB);
     case C_ANAMHERMITE: return loadNF<AnamHermite>(path, dumpAnamH);
     case C_POLYLINE: return loadNF<PolyLine2D>(path, dumpPolyLine);
-    case C_MESHETURBO: return loadNF<MeshETurbo>(path, nullptr);
+    case C_MESHETURBO: return loadNF<MeshETurbo>(path, dumpTurbo);
     case C_RULE: return loadNF<Rule>(path, dumpRule);
     case C_FAULTS: return loadNF<Faults>(path, dumpFaults);
-    case C_NEIGHIMAGE: return loadNF<NeighImage>(path, nullptr);
+    case C_NEIGHIMAGE: return loadNF<NeighImage>(path, dumpNeighI);
     case C_NEIGHCELL: return loadNF<NeighCell>(path, dumpNeighC);
-    case C_ANAMEMPIRICAL: return loadNF<AnamEmpirical>(path, nullptr);
-    case C_ANAMDD: return loadNF<AnamDiscreteDD>(path, nullptr);
-    case C_ANAMIR: return loadNF<AnamDiscreteIR>(path, nullptr);
-    case C_DBLINE: return loadNF<DbLine>(path, nullptr);
+    case C_ANAMEMPIRICAL: return loadNF<AnamEmpirical>(path, dumpAnamE);
+    case C_ANAMDD: return loadNF<AnamDiscreteDD>(path, dumpAnamDD);
+    case C_ANAMIR: return loadNF<AnamDiscreteIR>(path, dumpAnamIR);
+    case C_DBLINE: return loadNF<DbLine>(path, dumpDbLine);
     case C_POLYELEM: return loadNF<PolyElem>(path, dumpPolyElem);
     case C_ZYCOR: case C_IFPEN: case C_F2G: case C_BMP: return loadGridFmt(path, cls - C_ZYCOR);
     default:
